@@ -49,20 +49,23 @@ type seed struct {
 
 // target = one entry point in one pre-state.
 type target struct {
-	name       string // unique: "<entry>[<pre-state>]"
-	entry      string // entry point group used when reporting
-	seeds      []seed
-	strN       int                           // all byte strings up to this length (2, or 3 for pure decoders)
-	wraps      []func(p []byte) []byte       // short strings are additionally embedded as payload by each wrapper
-	prep       func(in []byte) []byte        // optional final transform of every generated input (e.g. re-sign)
-	isolate    bool                          // run in child processes (the code under test starts goroutines that touch the input)
-	newCtx     func() (any, func())          // optional per-worker context + cleanup
-	call       func(ctx any, in []byte) bool // execute on the REAL code; returns "non-trivial" (got past the first checks)
-	light      bool                          // skip 16-bit sweeps (expensive per call)
-	precheck   func() *panicInfo             // optional: validates the pre-state itself once; non-nil = the pre-state already wedges (recorded, part skipped)
-	quickLite  bool                          // quick tier: seeds, truncations, length-field values and 2 KiB variants only (a further configuration of an entry point whose primary configuration gets the full generator)
-	quickSkip  bool                          // part runs only in the thorough tier
-	quickSeeds int                           // if >0: the quick tier uses only the first n seeds (expensive isolated targets)
+	name         string // unique: "<entry>[<pre-state>]"
+	entry        string // entry point group used when reporting
+	seeds        []seed
+	strN         int                           // all byte strings up to this length (2, or 3 for pure decoders)
+	wraps        []func(p []byte) []byte       // short strings are additionally embedded as payload by each wrapper
+	prep         func(in []byte) []byte        // optional final transform of every generated input (e.g. re-sign)
+	isolate      bool                          // run in child processes (the code under test starts goroutines that touch the input)
+	newCtx       func() (any, func())          // optional per-worker context + cleanup
+	call         func(ctx any, in []byte) bool // execute on the REAL code; returns "non-trivial" (got past the first checks)
+	light        bool                          // skip 16-bit sweeps (expensive per call)
+	precheck     func() *panicInfo             // optional: validates the pre-state itself once; non-nil = the pre-state already wedges (recorded, part skipped)
+	len8Boundary bool                          // 8-bit length fields take the boundary values only (Engine B pass of the quick tier)
+	quickLite    bool                          // quick tier: seeds, truncations, length-field values and 2 KiB variants only (a further configuration of an entry point whose primary configuration gets the full generator)
+	deadlockPass bool                          // package compiled with the cooperative sync shims: also run every call as one Engine B thread
+	skipParallel bool                          // set by the deadlock pass when it found a deadlock
+	quickSkip    bool                          // part runs only in the thorough tier
+	quickSeeds   int                           // if >0: the quick tier uses only the first n seeds (expensive isolated targets)
 }
 
 // job enumerates a deterministic chunk of a target's inputs.
@@ -313,50 +316,83 @@ func (e *engine) runJobs(t *target, jobs []job, jobIdx []int, nw int, skipJob, s
 				if sl.seq.Load() != seq || sl.start.Load() != st {
 					continue
 				}
-				// Suspected hang: confirm with a solo re-execution on a fresh context so that
-				// machine load alone can never produce a HANG verdict.
-				if e.confirmHang(t, in) {
+				// Suspected hang. The wall clock never decides a blocked call:
+				//  - solo re-execution on a fresh context; if that returns, nothing is wrong;
+				//  - if the solo goroutine is still RUNNING (on CPU) after another 10 s, the call is a non-terminating
+				//    computation on a <= 2 KiB input (a normal evaluation takes microseconds; 10 s of CPU twice cannot be
+				//    caused by load): HANG;
+				//  - if it is BLOCKED: instrumented packages are decided by Engine B (deadlock or not), anything else is
+				//    reported as a harness error (exit 2), never as a violation.
+				switch e.confirmHang(t, in) {
+				case "running":
 					buf := make([]byte, 1<<16)
 					buf = buf[:runtime.Stack(buf, true)]
-					e.record("hang", t, in, "hang in "+t.entry, fmt.Sprintf("call did not return within %v (twice)", hangCap), string(buf))
-					hungOnce.Do(func() { close(hung) })
-					// The stuck goroutines cannot be stopped and keep their cores busy: end the run here.
-					atomic.StoreInt32(&e.aborted, 1)
-					return atomic.LoadInt64(&calls), atomic.LoadInt64(&nontriv), true
+					e.record("hang", t, in, "hang in "+t.entry, fmt.Sprintf("call still computing after %v (twice, second time alone): non-terminating loop", hangCap), string(buf))
+				case "blocked":
+					if t.deadlockPass {
+						e.decideBlocked(t, in)
+					} else {
+						e.run.HarnessError(fmt.Sprintf("%s: a call stayed blocked (not running) for 2 x %v; this package is not instrumented for deadlock detection, not decided (input %x)", t.name, hangCap, in))
+					}
+				default:
+					continue
 				}
+				hungOnce.Do(func() { close(hung) })
+				// The stuck goroutines cannot be stopped: end the run here.
+				atomic.StoreInt32(&e.aborted, 1)
+				return atomic.LoadInt64(&calls), atomic.LoadInt64(&nontriv), true
 			}
 		}
 	}
 }
 
-func (e *engine) confirmHang(t *target, in []byte) bool {
+// confirmHang re-executes the input alone. "" = it returned; otherwise the state of the goroutine after hangCap.
+func (e *engine) confirmHang(t *target, in []byte) string {
 	res := make(chan struct{}, 1)
-	go func() {
-		var ctx any
-		var cleanup func()
-		if t.newCtx != nil {
-			ctx, cleanup = t.newCtx()
-		}
-		cp := make([]byte, len(in))
-		copy(cp, in)
-		safeCall(t, ctx, cp)
-		if cleanup != nil {
-			cleanup()
-		}
-		res <- struct{}{}
-	}()
+	go confirmProbe(t, in, res)
 	select {
 	case <-res:
-		return false
+		return ""
 	case <-time.After(hangCap):
-		return true
 	}
+	buf := make([]byte, 8<<20)
+	buf = buf[:runtime.Stack(buf, true)]
+	for _, g := range strings.Split(string(buf), "\n\n") {
+		if !strings.Contains(g, "c09.confirmProbe") {
+			continue
+		}
+		if m := gHeader.FindStringSubmatch(g); m != nil {
+			if strings.HasPrefix(m[1], "running") || strings.HasPrefix(m[1], "runnable") {
+				return "running"
+			}
+			return "blocked"
+		}
+	}
+	return "" // finished in the meantime
+}
+
+func confirmProbe(t *target, in []byte, res chan struct{}) {
+	var ctx any
+	var cleanup func()
+	if t.newCtx != nil {
+		ctx, cleanup = t.newCtx()
+	}
+	cp := make([]byte, len(in))
+	copy(cp, in)
+	safeCall(t, ctx, cp)
+	if cleanup != nil {
+		cleanup()
+	}
+	res <- struct{}{}
 }
 
 // runTarget executes every job of t (in-process or in child processes) and accounts for it.
 func (e *engine) runTarget(t *target) {
 	if atomic.LoadInt32(&e.aborted) != 0 {
 		e.run.AddPart(report.Part{Name: t.name, Engine: "D", Bound: boundText(t, e.thorough), Exhaustive: false, Note: "skipped: a hang was confirmed earlier in this run"})
+		return
+	}
+	if t.skipParallel {
 		return
 	}
 	if t.precheck != nil {
